@@ -16,13 +16,119 @@ def enc_fn(F):
     return F.one_fn(name="encode_internal", self_adt="Module")
 
 
-def mapping_locals(fn):
-    """hid → kind for `let X_mapping = … recalculate_ids(.. self.<coll>) / get_mapping_generic(..)`
-    and for parameters named <kind>_mapping."""
+LEAF_FIELD_KIND = {
+    "function_index": "func", "global_index": "global",
+    "mem": "memory", "src_mem": "memory", "dst_mem": "memory", "memory": "memory", "memory_index": "memory",
+}
+LEAF_VARIANT_KIND = {("InitInstr", "Global"): "global", ("InitInstr", "RefFunc"): "func"}
+_PK_CACHE = {}
+
+
+def _is_u32_map(ty):
+    return "HashMap<u32, u32" in (ty or "")
+
+
+def _binding_origins(fn):
+    """hid → kind for pattern bindings whose origin names an index space: a struct-pattern field called
+    function_index/global_index/mem/src_mem/dst_mem/memory_index, or the payload of InitInstr::Global/RefFunc."""
     out = {}
-    for p in fn.get("params", []):
+    for p in walk(fn.get("body") or {}):
+        k = p.get("k")
+        if k == "Struct" and "fields" in p and p.get("adt") and isinstance(p["fields"], list):
+            for item in p["fields"]:
+                if not (isinstance(item, list) and len(item) == 2 and isinstance(item[1], dict)):
+                    continue
+                fname, sub = item
+                for b in walk(sub):
+                    if b.get("k") == "Binding" and fname in LEAF_FIELD_KIND:
+                        out[b["hid"]] = LEAF_FIELD_KIND[fname]
+        elif k == "TupleStruct" and p.get("variant"):
+            key = ((p.get("adt") or "").split("::")[-1], p["variant"])
+            if key in LEAF_VARIANT_KIND:
+                for b in walk(p):
+                    if b.get("k") == "Binding":
+                        out[b["hid"]] = LEAF_VARIANT_KIND[key]
+    return out
+
+
+def _leaf_kind_of_key(arg, origins):
+    kinds = set()
+    for n in walk(arg):
+        if n.get("k") == "Field" and n["name"] in LEAF_FIELD_KIND and "MemArg" in (n.get("base_ty") or "MemArg"):
+            if n["name"] == "memory":
+                kinds.add("memory")
+        if n.get("k") == "Path" and n.get("res", {}).get("r") == "local" and n["res"].get("hid") in origins:
+            kinds.add(origins[n["res"]["hid"]])
+    return kinds
+
+
+def param_kinds(F):
+    """Infer, for every local function parameter of type &HashMap<u32,u32>, which index space the map is *used* for:
+    from the key of each `.get(..)` on it (an Operator/InitInstr field naming the space) and, transitively, from the
+    callee parameters it is passed to.  Names of parameters and locals play no role.  → {(fn path, param idx): set(kinds)}"""
+    if id(F) in _PK_CACHE:
+        return _PK_CACHE[id(F)]
+    fns = [f for f in F.fns if f.get("body") is not None and any(_is_u32_map(p.get("ty")) for p in f.get("params", []))]
+    kinds = {}
+    phid = {}
+    for f in fns:
+        for i, p in enumerate(f["params"]):
+            if _is_u32_map(p.get("ty")) and p["pat"].get("k") == "Binding":
+                kinds[(f["path"], i)] = set()
+                phid[(f["path"], p["pat"]["hid"])] = i
+    changed = True
+    rounds = 0
+    while changed and rounds < 10:
+        changed = False
+        rounds += 1
+        for f in fns:
+            origins = _binding_origins(f)
+            for c in walk(f["body"]):
+                if c.get("k") not in ("Call", "MethodCall"):
+                    continue
+                if c["k"] == "MethodCall" and c["method"] == "get":
+                    rv = peel(c["recv"])
+                    if rv.get("k") == "Path" and rv.get("res", {}).get("r") == "local" and (f["path"], rv["res"]["hid"]) in phid:
+                        ks = _leaf_kind_of_key(c["args"][0], origins) if c["args"] else set()
+                        slot = kinds[(f["path"], phid[(f["path"], rv["res"]["hid"])])]
+                        if not ks <= slot:
+                            slot |= ks
+                            changed = True
+                    continue
+                callee = c.get("inst") or c.get("callee")
+                tgt = F.by_path.get(callee or "")
+                if not tgt or len(tgt) != 1:
+                    continue
+                args = ([c["recv"]] if c["k"] == "MethodCall" else []) + list(c["args"])
+                for j, a in enumerate(args):
+                    if (tgt[0]["path"], j) not in kinds:
+                        continue
+                    av = peel(a)
+                    if av.get("k") == "Path" and av.get("res", {}).get("r") == "local" and (f["path"], av["res"]["hid"]) in phid:
+                        slot = kinds[(f["path"], phid[(f["path"], av["res"]["hid"])])]
+                        add = kinds[(tgt[0]["path"], j)]
+                        if not add <= slot:
+                            slot |= add
+                            changed = True
+    _PK_CACHE[id(F)] = kinds
+    return kinds
+
+
+def mapping_locals(fn, F=None):
+    """hid → kind.  Sources: `let m = … recalculate_ids(.. self.<coll>) / get_mapping_generic(..)`.
+    Parameters: the kind the parameter is *used* for (param_kinds; by-name only when F is not supplied)."""
+    out = {}
+    pk = param_kinds(F) if F is not None else None
+    for i, p in enumerate(fn.get("params", [])):
         b = p["pat"]
         if b.get("k") == "Binding":
+            if pk is not None:
+                ks = pk.get((fn["path"], i))
+                if ks and len(ks) == 1:
+                    out[b["hid"]] = next(iter(ks))
+                elif ks:
+                    out[b["hid"]] = "+".join(sorted(ks))  # one map used for two spaces: never equals a wanted kind
+                continue
             for k in KINDS:
                 if b["name"] == k + "_mapping" or (k == "func" and b["name"] in ("fn_mapping", "function_mapping")):
                     out[b["hid"]] = k
@@ -65,12 +171,21 @@ def mapping_lookups(e, maps):
 
 def map_args(F):
     r = RuleResult("R-MAP-ARGS",
-                   "wherever a callee takes parameters named {func,global,memory}_mapping, the argument passed is the map of that same index space (all three maps are HashMap<u32,u32>, so the type checker cannot tell them apart)")
+                   "all three old→new maps are HashMap<u32,u32>, so the type checker cannot tell them apart: (1) every map parameter is used for exactly one index space (the key of each `.get` on it is an Operator/InitInstr field of that space, transitively through callees); (2) at every call site the map passed — traced back to recalculate_ids(self.<collection>) or to the caller's own parameter — is the map of the space the callee uses that parameter for")
+    pk = param_kinds(F)
     n = 0
+    for (path, i), ks in sorted(pk.items()):
+        tgt = F.by_path.get(path)
+        if not ks:
+            continue
+        ok = len(ks) == 1
+        r.ob(ok, {"fn": path, "param": i, "used_for": sorted(ks)})
+        if not ok:
+            r.violate("%s | param %d mixed" % (path, i), F.loc(tgt[0]), "one map parameter is used for several index spaces: %s" % sorted(ks))
     for fn in F.fns:
         if fn.get("body") is None:
             continue
-        maps = mapping_locals(fn)
+        maps = mapping_locals(fn, F)
         if not maps:
             continue
         for c in walk(fn["body"]):
@@ -80,16 +195,13 @@ def map_args(F):
             tgt = F.by_path.get(callee or "")
             if not tgt or len(tgt) != 1 or tgt[0].get("params") is None:
                 continue
-            pnames = [p["pat"].get("name") for p in tgt[0]["params"]]
             args = ([c["recv"]] if c["k"] == "MethodCall" else []) + list(c["args"])
-            for pn, a in zip(pnames, args):
-                want = next((k for k in KINDS if pn == k + "_mapping"), None)
-                if pn == "mapping":
-                    # update_{fn,global,memory}_instr(op, mapping): kind from the callee name
-                    nm = tgt[0]["name"]
-                    want = {"update_fn_instr": "func", "update_global_instr": "global", "update_memory_instr": "memory"}.get(nm)
-                if not want:
+            for j, a in enumerate(args):
+                ks = pk.get((tgt[0]["path"], j))
+                if not ks or len(ks) != 1:
                     continue
+                want = next(iter(ks))
+                pn = tgt[0]["params"][j]["pat"].get("name")
                 got = kind_of_expr(a, maps)
                 n += 1
                 ok = got == want
@@ -97,9 +209,10 @@ def map_args(F):
                 if fn["path"] not in r.analysed:
                     r.analysed.append(fn["path"])
                 if not ok:
-                    r.violate("%s | %s(%s)" % (fn["path"], tgt[0]["name"], pn), F.loc(fn, c),
-                              "argument for parameter `%s` of %s is the %s map (expected the %s map)" % (pn, tgt[0]["name"], got, want))
+                    r.violate("%s | %s(#%d %s)" % (fn["path"], tgt[0]["name"], j, want), F.loc(fn, c),
+                              "argument %d of %s is used by the callee as the %s map, but the %s map is passed" % (j, tgt[0]["name"], want, got))
     r.count("mapping_arguments", n)
+    r.count("map_params_inferred", sum(1 for ks in pk.values() if ks))
     return r
 
 
@@ -109,7 +222,7 @@ def emit_mapped(F, kinds=KINDS, names=False):
     fn = enc_fn(F)
     repo = os.environ.get("ORCA_ANALYSED_REPO", REPO)
     r.analysed.append(fn["path"])
-    maps = mapping_locals(fn)
+    maps = mapping_locals(fn, F)
     if set(maps.values()) != set(KINDS):
         raise CheckError("encode_internal: mapping locals not identified: %s" % maps)
     body = fn["body"]
@@ -276,7 +389,7 @@ def miss_loud(F):
     for fn in F.fns:
         if fn.get("body") is None:
             continue
-        maps = mapping_locals(fn)
+        maps = mapping_locals(fn, F)
         # update_*_instr take `mapping`
         if fn["name"] in ("update_fn_instr", "update_global_instr", "update_memory_instr"):
             for p in fn["params"]:
